@@ -105,7 +105,7 @@ theorem C01_mangle_no_illegal_char (n : Ident) : hasTrigger (rustMangle n) = fal
   | true =>
     rw [rustMangle_of_dirty h]
     simp only [hasTrigger, List.any_append, List.any_map, List.any_cons, List.any_nil, Bool.or_false,
-      Bool.or_eq_false_iff, C01_kw_table_suffix_not_trigger, and_true]
+      C01_kw_table_suffix_not_trigger]
     rw [List.any_eq_false]
     intro x _
     simp [applyRepl_not_trigger]
@@ -124,8 +124,7 @@ theorem C01_mangle_fails_injective_keyword :
 theorem C01_mangle_fails_injective_dollar :
     rustMangle ['a','$'] = rustMangle ['a','_','_'] ∧ (['a','$'] : Ident) ≠ ['a','_','_'] := by decide
 
-/-- Region predicate of the known finding `mangle_collision`: `b` is what `a` is mangled to. -/
-def mangleCollision (a b : Ident) : Bool := a != b && rustMangle a == rustMangle b
+theorem C01_mangleCollision_witness : mangleCollision ['m','a','t','c','h'] ['m','a','t','c','h','_'] = true := by decide
 
 theorem map_applyRepl_clean (n : Ident) (h : hasTrigger n = false) : n.map applyRepl = n := by
   induction n with
@@ -222,7 +221,7 @@ theorem append_digits_eq {c c' d d' : Ident} (hd : d.all Char.isDigit = true) (h
     exact digitExtends_of_append hane hall
 
 theorem countOf_cons_self (xs : List Ident) (x : Ident) : countOf (x :: xs) x = countOf xs x + 1 := by
-  simp [countOf, List.filter_cons]
+  simp [countOf]
 
 theorem countOf_cons_le (xs : List Ident) (x y : Ident) : countOf xs y ≤ countOf (x :: xs) y := by
   simp only [countOf, List.filter_cons]
